@@ -16,15 +16,18 @@ CONSTANTS NMin, N,       \* curve sizes NMin..N
 RECURSIVE PrefixSum(_, _)
 PrefixSum(g, p) == IF p = 0 THEN 0 ELSE g[p] + PrefixSum(g, p - 1)
 
-Init == \E nn \in NMin..N :
-          \E gaps \in [1..(nn - 1) -> 1..GapMax], hs \in [0..(nn - 1) -> 0..HMax] :
-            /\ n = nn
+\* A gap larger than w decides every comparison |x_a - x_b| >= w exactly like a gap equal to w, so
+\* gaps range over 1..min(GapMax, w) without loss of generality.
+Min(a, b) == IF a < b THEN a ELSE b
+Init == \E nn \in NMin..N, ww \in 1..WMax :
+          \E gaps \in [1..(nn - 1) -> 1..Min(GapMax, ww)], hs \in [0..(nn - 1) -> 0..HMax] :
+            /\ n = nn /\ w = ww
             /\ xs = [p \in 0..(nn - 1) |-> PrefixSum(gaps, p)]
             /\ hr = hs
-            /\ w \in 1..WMax
             /\ yb \in HBMin..HBMax
             /\ ytab = <<>>
             /\ zkey = [p \in 0..(nn - 1) |-> 0]
+            /\ zgiven = [on |-> FALSE]
             \* `y_min == 1` needs a flat curve (y <= 1)
             /\ early \in (IF \A p \in 0..(nn - 1) : hs[p] = hs[0] THEN BOOLEAN ELSE {FALSE})
             /\ zl = Empty /\ stopLevel = -1
